@@ -206,7 +206,7 @@ SPECS = ("%s", "%d", "%5.2f", "%x", "%c", "%r", "%%", "%*d", "%.*f", "%(a)s", "%
 ARGS: Tuple[Any, ...] = (
     1, "s", 1.5, None, b"b", "xy", "", b"",
     (), (1,), ("s",), (1, "s"), (1, 2), (1, 2, 3), (b"b",), (1.5, 2), ("",), ("s", ""),
-    {}, {"a": 1}, {"a": "s"}, {"a": 1, "b": "s"}, {"b": 1}, {b"a": 1}, {b"a": 1, b"b": b"x"}, {1: "x"}, {"c": 1}, {b"\xff": b"x"}, {"\xff": "x"},
+    {}, {"a": 1}, {"a": "s"}, {"a": 1, "b": "s"}, {"b": 1}, {b"a": 1}, {b"a": 1, b"b": b"x"}, {1: "x"}, {"c": 1}, {b"\xff": b"x"}, {"\xff": "x"}, {"": 1}, {"": 1, "a": 2}, bytearray(b"a"), (bytearray(b"a"),), 300, (300,), 0x110000,
 )
 
 
@@ -220,8 +220,15 @@ def templates() -> Iterator[Any]:
         yield a + " " + b
     yield from ("%", "%z", "%(a", "100%", "%5", "%(a)s %s", "%(a)*d", "%s %(a)s", "%\n", "%s\n")
     yield "%(\xff)s"  # a mapping key that is not ASCII (as bytes: b"%(\xff)s")
+    # a precision without digits, an empty mapping key, %% next to a mapping key
+    yield from ("%.f", "%5.d", "%.s", "%.3s|%.d", "%()s", "%(a)s %%", "%% %(a)d", "%(a)s %% %s")
+    yield UNICODE_DIGIT_WIDTH
+
+
+UNICODE_DIGIT_WIDTH = "%\u0663d"  # ARABIC-INDIC DIGIT THREE as a field width: not a digit for CPython's formatter
 
 
 def both_kinds(t: str) -> Iterator[Any]:
     yield t
-    yield t.encode("latin-1")  # every template of the domain is ASCII except the one with the key \xff
+    if t != UNICODE_DIGIT_WIDTH:  # (not representable in a bytes template)
+        yield t.encode("latin-1")  # every template of the domain is ASCII except the one with the key \xff
